@@ -9,7 +9,9 @@
  * scheduling point: a reader can run between any two stores of the updater.
  *
  * build:  gcc -fsanitize=thread -c rculist.c ; gcc -c vrt.c vrt_tsan.c ; gcc rculist.o vrt.o vrt_tsan.o -pthread
- * run:    rculist --seed N [--hlist] --readers R --uops N --travs N [--park K] [vrt options]
+ * run:    rculist --seed N [--hlist] --readers R --uops N --travs N [--prefill P --park K] [--nofree] [--abort PCT] [vrt options]
+ *         --park K (sweep strategy): the updater first adds P nodes, the reader walks K nodes and parks on the K-th
+ *         until the forced preemption (--preempt-at N) resumes it between two stores of the updater
  *
  * One updater (mutual exclusion of updaters is the API contract) applies random add / add_tail / del /
  * replace (hlist: add_head / del), runs harness-level grace periods and frees (poisons) removed nodes;
@@ -51,7 +53,7 @@ static struct item poison;		/* freed nodes point here; it points to itself */
 static struct cds_list_head head = CDS_LIST_HEAD_INIT(head);
 static struct cds_hlist_head hhead;
 
-static int hlist, nreaders = 2, uops = 12, travs = 4, park = -1, nofree, abort_pct = 10;
+static int hlist, nreaders = 2, uops = 12, travs = 4, park = -1, nofree, abort_pct = 10, prefill;
 
 /* ---- oracle state (unnamed memory) ---- */
 enum { N_FRESH, N_LIVE, N_REMOVED, N_FREED };
@@ -374,6 +376,10 @@ static void *updater(void *arg)
 	for (k = 0; k < uops; k++) {
 		unsigned c = vrt_rand() % 100;
 		int id, old, i;
+		if (k < prefill)
+			c = 0;
+		else if (k == prefill && park >= 0)
+			vrt_sleep(40);		/* sweep mode: let the reader walk to its parking position first */
 		if (na == 0 || c < 30 || (c < 45 && hlist)) {
 			/* add at head */
 			id = new_node();
@@ -466,6 +472,7 @@ int main(int argc, char **argv)
 		else if (!strcmp(argv[i], "--travs") && i + 1 < argc) travs = atoi(argv[++i]);
 		else if (!strcmp(argv[i], "--park") && i + 1 < argc) park = atoi(argv[++i]);
 		else if (!strcmp(argv[i], "--nofree")) nofree = 1;
+		else if (!strcmp(argv[i], "--prefill") && i + 1 < argc) prefill = atoi(argv[++i]);
 		else if (!strcmp(argv[i], "--abort") && i + 1 < argc) abort_pct = atoi(argv[++i]);
 	}
 	if (nreaders > MAXR) nreaders = MAXR;
@@ -484,7 +491,7 @@ int main(int argc, char **argv)
 	}
 	vrt_name(&poison.data, sizeof(long), "poison.data");
 	vrt_tsan_quiet--;
-	vrt_raw("CFG kind=%s readers=%d uops=%d travs=%d park=%d", hlist ? "hlist" : "list", nreaders, uops, travs, park);
+	vrt_raw("CFG kind=%s readers=%d uops=%d travs=%d park=%d prefill=%d", hlist ? "hlist" : "list", nreaders, uops, travs, park, prefill);
 	vrt_spawn("updater", updater, NULL);
 	for (i = 1; i <= nreaders; i++)
 		vrt_spawn("reader", reader, (void *)(long)i);
